@@ -45,6 +45,9 @@ def required_cells(tier):
 
 
 RTOL = {"EpistemicUS": 1e-3, "EpistemicUS_pre": 1e-3}      # numerical optimiser inside the strategy (tolerance ~1e-5)
+# row permutation refits the model on permuted rows: scikit-learn's iterative LogisticRegression solver (lbfgs, tol 1e-4)
+# stops at a slightly different point (4e-5 relative on badly scaled features); the other relations reuse the same fit
+PERM_RTOL = {"US_margin_cost": 1e-3, "EpistemicUS_logreg": 1e-3}
 
 
 def _close(a, b, rtol=1e-7):
@@ -156,7 +159,7 @@ def run_case(desc):
             moved = int(np.sum(perm[np.isin(perm, unl)] != np.sort(perm[np.isin(perm, unl)])))
             if moved >= 2:
                 nt_keys.append("%s|permutation|%s|%s|n%d|%d" % (e.name, c.data, c.labels, c.n, desc["seed"] % 9973))
-            if not _close(E[1][0], A[1][0][perm], RTOL.get(e.name, 1e-7)):
+            if not _close(E[1][0], A[1][0][perm], PERM_RTOL.get(e.name, RTOL.get(e.name, 1e-7))):
                 i = _worst(E[1][0], A[1][0][perm])
                 add("utilities-differ:row-permutation", "row %d (original sample %d): %r vs %r" % (i, int(perm[i]), E[1][0][i], A[1][0][perm][i]))
         elif "perm" in errors:
